@@ -279,11 +279,11 @@ func (p *sparser) primary() *SExpr {
 					p.expect(",")
 				}
 			}
-			if t.text == "old" {
+			if t.text == "old" || t.text == "prev" {
 				if len(args) != 1 {
-					panic("old takes one argument")
+					panic(t.text + " takes one argument")
 				}
-				return &SExpr{Op: "old", Args: args, Pos: t.pos}
+				return &SExpr{Op: t.text, Args: args, Pos: t.pos}
 			}
 			return &SExpr{Op: "call", Name: t.text, Args: args, Pos: t.pos}
 		}
@@ -359,8 +359,8 @@ func (e *SExpr) String() string {
 			parts = append(parts, a.String())
 		}
 		return e.Name + "(" + strings.Join(parts, ", ") + ")"
-	case "old":
-		return "old(" + e.Args[0].String() + ")"
+	case "old", "prev":
+		return e.Op + "(" + e.Args[0].String() + ")"
 	case "field":
 		return e.Args[0].String() + "." + e.Name
 	case "index":
